@@ -139,7 +139,8 @@ def plan(tier, rng, sl, nslices, stats):
             ast = relabel(ast)
             right = {"kind": "regex", "text": rs.render(ast, rng)}
         elif r < 0.93:
-            fa = gfa.random_case(rng, max_states=3, max_syms=rng.choice([1, 2, 3]), vcs=["int", "str", "tuple"])
+            fa = gfa.random_case(rng, max_states=rng.choice([3, 3, 4]), max_syms=rng.choice([1, 2, 3]),
+                                 vcs=["int", "str", "tuple", "varnames", "varnames"])
             if rng.random() < 0.35 and fa["kind"] != "dfa":
                 # an NFA / eps-NFA object that happens to be deterministic
                 seen = set()
